@@ -18,6 +18,8 @@ class Scheduler:
         self.default = default
         self.cycle = cycle
         self.timeout = timeout
+        self.batch_total = total     # tasks of the batch being evaluated (begin_batch() for multi-batch runs)
+        self.batch_done = 0
         self.blocked = {}      # task tag -> gate name
         self.released = set()
         self.running = 0
@@ -35,6 +37,13 @@ class Scheduler:
         self.fallbacks = 0
         self.body_done = False
 
+    # ---- called from the thread that starts a parallel evaluation
+    def begin_batch(self, n):
+        with self.cv:
+            self.batch_total = n
+            self.batch_done = 0
+            self.cv.notify_all()
+
     # ---- called from worker threads
     def task_start(self, tag):
         self.local.tag = tag
@@ -47,6 +56,7 @@ class Scheduler:
         with self.cv:
             self.running -= 1
             self.done += 1
+            self.batch_done += 1
             self.moves += 1
             self.inflight.discard(tag)
             self.cv.notify_all()
@@ -80,8 +90,8 @@ class Scheduler:
                     if self.done >= self.total:
                         return True
                     waiting = len(self.blocked) - len(self.released & set(self.blocked))
-                    return self.running == 0 and not self.released and waiting == min(self.workers,
-                                                                                      self.total - self.done)
+                    left = self.batch_total - self.batch_done
+                    return self.running == 0 and not self.released and left > 0 and waiting == min(self.workers, left)
                 # fast path: the exact, timing-free condition.  Fallback (only reached when the code under test does
                 # not run one task per design on `workers` threads, e.g. a dropped or duplicated task): proceed with
                 # whatever is blocked once nothing has moved for a while; the oracle then judges the outcome.
